@@ -319,7 +319,7 @@ PROPS["C08"] = {
     "level_text": ("fault enumeration: every tracked allocation point of each explored image's decode+render is failed once (exhaustively "
                    "for images with <= 60/400 points), with follow-up call sequences and recovery; wedges are decided logically from hook events"),
     "level_note": "trusted: hooks H1/H2 (add-only, pass-through), monitor.rs orphan logic, generators",
-    "technique": "fault injection at every tracked allocation + protocol-event monitor (logical wedge detection) + differential re-render",
+    "technique": "fault injection at every tracked allocation + protocol-event monitor (logical wedge detection) + quiescent-point state invariant (hook H5) + differential re-render",
     "quick": {"cases": 5000, "floor": 125, "time_budget": 240},
     "thorough": {"cases": 30000, "floor": 750, "time_budget": 900},
 }
@@ -331,15 +331,22 @@ PROPS["C13"] = {
              "keyframes, image_all_channels, set_image_region, render_loading_frame) under pool none or rayon(3), limit expanded/shrunk "
              "between images; every object dropped. Monitor (hook H1): shadow outstanding bytes <= shadow total limit after every "
              "successful alloc; at quiescence outstanding == 0, real budget == total limit, and the public shrink_limit(total) succeeds. "
-             "Exhaustion must surface as Err (a panic/abort is attributed by the supervisor). signature = (limit class, image kinds, "
-             "outcome set, pool, chain length class); non-trivial iff >= 1 tracked allocation was attempted"),
+             "Exhaustion must surface as Err (a panic/abort is attributed by the supervisor); without a pool, a render that returns Ok "
+             "although an allocation was refused during the call (H1 refusal counter) must equal the decode without a limit (falling back "
+             "is legitimate, dropping content is not). 1/25 cases: 2..8 threads hammer one tracker (limits 1..100000 B, requests below, at "
+             "and above the limit, random holds and drops) - shadow accounting must never exceed the limit and the budget must be whole "
+             "after the drops. 1/16 cases: single-fault enumeration on a multi-group image - exactly the k-th tracked allocation of "
+             "read+render is refused (hook fail_only), for every k (stride above 300 points): Err, or Ok with the samples of the unlimited "
+             "decode; nothing outstanding afterwards. signature = (limit class, image kinds, outcome set, pool, chain length class) / "
+             "(tracker-stress, threads, limit) / (single-fault, group class, log2 allocation count); non-trivial iff >= 1 tracked allocation "
+             "was attempted"),
     "assumptions": [
         "only tracked allocations are accounted; hostile streams here are byte mutations of valid ones (value-level hostility is C01's corpus)",
         "JPEG reconstruction scripts are not part of the chains yet",
     ],
     "level_text": "exploration: thousands of (image chain, limit, script) triples per run with an online accounting monitor",
     "level_note": "trusted: hook H1 shadow counters (updated in the same call as the budget), c13.rs",
-    "technique": "online invariant monitor on hooked allocator state + quiescence checks through the public API",
+    "technique": "online invariant monitor on hooked allocator state (shadow accounting, refusal counter) + quiescence checks through the public API + concurrent tracker stress + single-allocation fault enumeration with differential output check",
     "quick": {"cases": 20000, "floor": 500, "time_budget": 240},
     "thorough": {"cases": 300000, "floor": 7500, "time_budget": 900},
 }
